@@ -127,11 +127,18 @@ func compare(r row, order []int) (kind, what string) {
 	return "", ""
 }
 
+// yamlFor writes the pipeline as YAML. Stage i runs a task named after ANOTHER stage (s_{i+1}),
+// so stage names and task names collide across stages, as a configuration may; depends_on must
+// still be resolved among stage names only.
 func yamlFor(n int, deps [][]int, order []int) string {
 	var b strings.Builder
-	b.WriteString("tasks:\n  t:\n    command: [\"true\"]\npipelines:\n  p:\n")
+	b.WriteString("tasks:\n")
+	for i := 1; i <= n; i++ {
+		fmt.Fprintf(&b, "  %s:\n    command: [\"true\"]\n", name(i))
+	}
+	b.WriteString("pipelines:\n  p:\n")
 	for _, i := range order {
-		fmt.Fprintf(&b, "    - name: %s\n      task: t\n", name(i))
+		fmt.Fprintf(&b, "    - name: %s\n      task: %s\n", name(i), name(i%n+1))
 		if len(deps[i-1]) > 0 {
 			var ds []string
 			for _, d := range deps[i-1] {
